@@ -382,6 +382,7 @@ def run_task(task):
             out["jumps"].append(dict(mol=k, step=i, t=i * dt, J=J, bfn=(cr["text"] if cr else ""), direct=jd))
             e[i + 1 :] -= J
         out["fluct"].append(float(np.abs(e - e[0]).max()))
+    out["E"] = [np.asarray(e, float).copy() for e in E]
     out["x0"] = [r[f"h5.{k}"]["coordinates/values"][0].copy() for k in range(len(mols))]
     out["v0"] = [r[f"h5.{k}"]["velocities/values"][0].copy() for k in range(len(mols))]
     if task["kind"] == "rev":
@@ -430,6 +431,20 @@ def family_oracles(f, res):
     # 4.0 down to fluctuations of 30 eps; below 10 floors a ratio is not evaluated and counted as excluded)
     x_floor = 0.5 * C.ACC_SCALE * 30.0 * eps * f["tphys"] ** 2
     e_floor = 3.0 * eps
+    # steps of the energy surface located in the fine runs are also taken out of the coarse runs of the family (where
+    # they cannot be located independently), at the step interval that contains the same physical time
+    ref_jumps = [j for j in ref["jumps"]]
+    for dt in DTS:
+        r = res[("fwd", dt)]
+        if dt > JUMP_DT_MAX + 1e-12 and ref_jumps:
+            r["fluct"] = list(r["fluct"])
+            for k in range(nm):
+                e = r["E"][k].copy()
+                for j in ref_jumps:
+                    if j["mol"] == k:
+                        i = int(np.floor(j["t"] / dt + 1e-9))
+                        e[i + 1 :] -= j["J"]
+                r["fluct"][k] = float(np.abs(e - e[0]).max())
     for k in range(nm):
         err = {}
         fl = {}
